@@ -5,4 +5,7 @@ Cfgs == [base |-> BaseCfg,
          all  |-> [BaseCfg EXCEPT !.num = TRUE, !.bool = TRUE, !.ips = TRUE, !.ns = TRUE]]
 TWTables == {}
 TWShapeKinds == {}
+FreeDepth == 1
+FreeKeys == {}
+FreeSlots == {}
 ====
